@@ -4,7 +4,7 @@
 From Coq Require Import Permutation.
 From Eino Require Import Base.Util Base.FMUniverse Model.FieldMap Proofs.FieldMapOverlap
   Model.FieldMapOwn Proofs.FieldMapAssign Proofs.FieldMapComm Proofs.FieldMapGetPut Proofs.FieldMapRun
-  Proofs.FieldMapOwn Model.FieldMapPromote Proofs.FieldMapPromote.
+  Proofs.FieldMapOwn Model.FieldMapPromote Proofs.FieldMapPromote Proofs.FieldMapPartition.
 
 (* ---------------------------------------------------------------- overlap detection *)
 
@@ -278,6 +278,59 @@ Example stream_agrees_nonvacuous :
           VStruct 2 [(19, VMap true (TPtr (TStruct 1)) (Some [(100, VPtr (TStruct 1) (Some (VStruct 1 [(5, VStruct 0 [(0, VInt 9)])])))]))];
           VStruct 2 [(16, VMap true TAny (Some [(103, VInt 3)]))]]%N.
 Proof. eexists. eexists. split; [vm_compute; reflexivity|]. split; [vm_compute; reflexivity|]. split; vm_compute; reflexivity. Qed.
+
+(* The converted chunks PARTITION the Invoke value: with one chunk per predecessor, every slot
+   at or below a mapped target path is carried by exactly one chunk — the chunk of the
+   declaration that maps it reads there what the Invoke value reads, every other chunk reads
+   zero there.  So whatever overlays the chunks slot by slot (the successor's stream
+   concatenation, properties C14/C04) rebuilds the Invoke value. *)
+Theorem stream_partition :
+  forall (env : senv) (T : ty) (ds : list decl) (ss : statics) (ckss : list checks) (srcs : list val) (v : val),
+    compile_s env T ds ss = CAccept ckss -> has_plain ds = false ->
+    Forall2 (fun d s => has_type env (d_ty d) s = true) ds srcs ->
+    run_invoke_s env T ds ss ckss srcs = Ok v ->
+    exists vs, run_stream_from env T ds ckss (map (fun s => [s]) srcs) = Ok vs /\
+      List.length vs = List.length ds /\
+      forall i d vi from to q,
+        nth_error ds i = Some d -> nth_error vs i = Some vi ->
+        In (from, to) (d_maps d) -> prefix to q = true ->
+        take_path env vi q = take_path env v q /\
+        forall j vj z, j <> i -> nth_error vs j = Some vj -> take_path env vj q = Ok z ->
+                       exists st b, extract_ty env T q = SOk st b /\ z = zero st.
+Proof. exact stream_partition. Qed.
+Print Assumptions stream_partition.
+
+(* ... with static values: they arrive as one more chunk, which carries exactly the static slots *)
+Theorem stream_partition_static :
+  forall (env : senv) (T : ty) (ds : list decl) (ss : statics) (ckss : list checks) (srcs : list val) (v : val),
+    compile_s env T ds ss = CAccept ckss -> has_plain ds = false -> ss <> [] ->
+    Forall2 (fun d s => has_type env (d_ty d) s = true) ds srcs ->
+    run_invoke_s env T ds ss ckss srcs = Ok v ->
+    exists vs vst, run_stream_s env T ds ss ckss (map (fun s => [s]) srcs) = Ok (vs ++ [vst]) /\
+      List.length vs = List.length ds /\
+      (forall i d from to q z, nth_error ds i = Some d -> In (from, to) (d_maps d) -> prefix to q = true ->
+         take_path env vst q = Ok z -> exists st b, extract_ty env T q = SOk st b /\ z = zero st) /\
+      (forall to x q, In (to, x) ss -> prefix to q = true ->
+         take_path env vst q = take_path env v q /\
+         forall j vj z, nth_error vs j = Some vj -> take_path env vj q = Ok z ->
+                        exists st b, extract_ty env T q = SOk st b /\ z = zero st).
+Proof. exact stream_partition_s. Qed.
+Print Assumptions stream_partition_static.
+
+(* non-vacuity: the accepted example (three predecessors + two static values): four chunks;
+   the slot PI.X = [11; 2] is carried by the first chunk only *)
+Example stream_partition_nonvacuous :
+  exists ckss v vs,
+    compile_s ex_env (TStruct 2) ex_decls ex_statics = CAccept ckss /\
+    run_invoke_s ex_env (TStruct 2) ex_decls ex_statics ckss ex_srcs = Ok v /\
+    run_stream_s ex_env (TStruct 2) ex_decls ex_statics ckss (map (fun s => [s]) ex_srcs) = Ok vs /\
+    List.length vs = 4 /\
+    map (fun c => take_path ex_env c [11; 2]%N) vs = [Ok (VInt 7); Ok (VInt 0); Ok (VInt 0); Ok (VInt 0)] /\
+    take_path ex_env v [11; 2]%N = Ok (VInt 7).
+Proof.
+  eexists. eexists. eexists. split; [vm_compute; reflexivity|]. split; [vm_compute; reflexivity|].
+  split; [vm_compute; reflexivity|]. split; vm_compute; [reflexivity|split; reflexivity].
+Qed.
 
 (* ---------------------------------------------------------------- predecessors' outputs *)
 
